@@ -360,6 +360,10 @@ def run_shard(desc, ctx):
         else:
             for _ in range(desc["n"]):
                 n = rng.randint(2, 45)
+                if rng.random() < 0.08:
+                    # tables of everyday length: a few hundred rows (fast paths for "long" tables start somewhere)
+                    n = rng.choice([rng.randint(90, 140), rng.randint(120, 300)])
+                    ctx.count("tables_longer_than_90_rows")
                 heights = [rng.choice([1, 1, 1, 2, 3]) for _ in range(n)]
                 nrow = rng.randint(2, 30)
                 res = dict(rng.choice(RESERVATIONS))
